@@ -377,6 +377,13 @@ def branch_scope_cases(maxcap, count):
                 if k: pro.append('append 0 ' + hexs(_bytes(k))); sh.append(k)
                 if f: pro.append('rmfront 0 %d' % f); sh.rmfront(f)
                 emit(pro, sh, args(sh))
+    # Buffers that own nothing and expose nothing: never used, freed, attached range consumed or cleared
+    for pro in (['new'], ['newcap 3', 'append 0 4142', 'free 0'], ['new', 'attach 0 4142', 'rmfront 0 2'],
+                ['new', 'attach 0 4142', 'rmback 0 5']):
+        sh = Sh()
+        emit(pro, sh, args(sh))
+    sh = Sh(); sh.attach(2); sh.clear()
+    emit(['new', 'attach 0 4142', 'clear 0'], sh, args(sh))
     for n in (UMAX, UMAX - 1, 2**63, UNSAT):
         count('scope:ctor/unsat')
         out.append(['new', 'newcap %d' % n, 'append 0 7e'])
@@ -396,50 +403,63 @@ class C08(Check):
     extracted = ['coq/Buffer/model.mli', 'coq/Buffer/model.ml', 'ocaml/zconv.ml', 'ocaml/buffer_driver.ml']
     harness_sources = ['harness/buffer.cpp']
     technique = ('machine-checked proof in Coq about a hand-written Gallina model with explicit memory (allocation = list of '
-                 'capacity+1 cells, attached range = immutable byte list, every access through bounds-checked rd/wr); model tied '
-                 'to the code by an extracted-model vs ASan/UBSan-implementation correspondence check with guard bytes')
-    level_text = ('Theorems in Coq (21, no axioms), for every history of new/copy/attach/=/assign/prepend/append/resize/reserve/'
-                  'removeFront/removeBack/clear/free/swap/== over any number of Buffer variables, all sizes and front/back offsets, '
-                  'including v = v, v.append(v), v.prepend(v) and histories mixing attach with owning operations: '
-                  '(1) C08_memory_safe(_step): the model never produces OutOfBounds / WriteForeign / Overlap / BadState - the only '
-                  'error is BadArg, exactly when the reference object rejects the history (operand variable does not exist); '
-                  '(2) C08_refines_queue(_step): the exposed bytes agree with the reference byte queue wherever the queue is '
-                  'specified (bytes newly exposed by a growing resize are None in the reference), == answers agree; per method and '
-                  'per branch (prepend: head-room / in-place shift / reallocate; resize: reallocate / in place / compact to front / '
-                  'non-owning) C08_assign, C08_prepend, C08_resize, C08_append, C08_append_self, C08_remove_front, C08_remove_back, '
-                  'C08_reserve, C08_clear state the exact exposed bytes; (3) C08_terminator: in every reachable world every owning '
-                  'variable has the cell at bufferEnd inside its allocation of capacity+1 cells and it holds 0; (4) '
-                  'C08_invariant_initial_and_preserved / C08_rep_invariant: buffer <= start <= end <= buffer+capacity, allocation '
-                  'length = capacity+1, non-owning => capacity = 0 and the window lies inside the attached range or is the empty '
-                  'window on a _capacity field.  The model is tied to the code by running the extracted model, the extracted '
-                  'reference queue and the ASan/UBSan build of the working tree on the same histories: size, bytes, byte after the '
-                  'end, guard bytes and pristine copy of attached ranges, and the private pointers (own/cap/start offset/allocation '
-                  'size) are compared after every operation.')
+                 'capacity+1 cells, attached range = immutable byte list, every access through bounds-checked rd/wr; caller-chosen '
+                 'sizes are binary numbers up to 2^64-1 and the usize sums capacity+1 and size+size are written with their wrap-around); '
+                 'model tied to the code by an extracted-model vs ASan/UBSan-implementation correspondence check with guard bytes')
+    level_text = ('Theorems in Coq (26, no axioms), for every history of new/copy/attach/=/assign/prepend/append/resize/reserve/'
+                  'removeFront/removeBack/clear/free/swap/== over any number of Buffer variables, all sizes (every usize argument up to '
+                  '2^64-1) and front/back offsets, including v = v, v.append(v), v.prepend(v), calls whose source pointer lies inside '
+                  'the Buffer itself (v.append(v+off,n), v.assign(v+off,n), v.prepend(v+off,n)) and histories mixing attach with owning '
+                  'operations: (1) C08_memory_safe(_step): the model never produces OutOfBounds / WriteForeign / Overlap / BadState; '
+                  'the two errors left are BadArg, exactly when the reference object rejects the history (operand variable missing, a '
+                  'data range longer than PTRDIFF_MAX, a pointer "inside v" that is not), and AllocFail, exactly when the reference says '
+                  'the request cannot be satisfied (more than PTRDIFF_MAX bytes for data + terminator); C08_allocate: '
+                  'Buffer::allocate(c) yields c+1 cells for c < PTRDIFF_MAX and fails for every other c including 2^64-1 where c+1 wraps '
+                  'to 0; C08_allocate_wrapping_refuted: the request formed before fixes/C08/10 succeeds with 0 cells for c = 2^64-1 and '
+                  'the terminator write is out of bounds; C08_sums_do_not_wrap: the usize sums in append/prepend are the mathematical '
+                  'sums on every reachable state; (2) C08_refines_queue(_step): the exposed bytes agree with the reference byte queue '
+                  'wherever the queue is specified (bytes newly exposed by a growing resize are None in the reference), == answers '
+                  'agree; per method and per branch (prepend: head-room / in-place shift / reallocate; resize: reallocate / in place / '
+                  'compact to front / non-owning) C08_assign, C08_prepend, C08_resize, C08_append, C08_append_self, C08_append_at, '
+                  'C08_assign_at, C08_prepend_at, C08_remove_front, C08_remove_back, C08_reserve, C08_clear state the exact exposed '
+                  'bytes or the allocation failure; (3) C08_terminator: in every reachable world every owning variable has the cell at '
+                  'bufferEnd inside its allocation of capacity+1 cells and it holds 0; (4) C08_invariant_initial_and_preserved / '
+                  'C08_rep_invariant: buffer <= start <= end <= buffer+capacity, allocation length = capacity+1 <= PTRDIFF_MAX, '
+                  'non-owning => capacity = 0 and the window lies inside the attached range or is the empty window on a _capacity '
+                  'field.  The model is tied to the code by running the extracted model, the extracted reference queue and the '
+                  'ASan/UBSan build of the working tree on the same histories: size, bytes, byte after the end, guard bytes and '
+                  'pristine copy of attached ranges, the private pointers (own/start offset/allocation size) and the answer of '
+                  'capacity() (checked against the private member) are compared after every operation.')
     level_note = ('The theorems are about the model; the tie to Buffer.hpp is differential (correspondence only), strengthened by an '
                   'exhaustive small scope over all owning states with capacity <= 5 (8 in the thorough tier) x arguments on and one '
-                  'past every branch condition.  Validated by correspondence only (not modelled): the order of delete[] relative to '
-                  'the copy out of the old storage and double free (AddressSanitizer), operator!= / isEmpty consistency, '
-                  'capacity() after each call, the Server.cpp send backlog (uses append/removeFront only; not driven). Modelled as '
-                  'input: the bytes handed to attach are fresh foreign memory that nobody else changes and that does not alias a '
-                  'Buffer allocation; data pointers handed to assign/append/prepend do not point into the Buffer itself (except '
-                  'through the Buffer& overloads, which are modelled). Sizes are nat: removeFront/removeBack are driven with every usize '
-                  '(2^64-1, 2^64-size, 2^63; the drivers pass an argument above 10^6 to the extracted code as size+1, justified by '
-                  'C08_remove_clamp / C08_spec_remove_clamp); wrap-around of capacity+1 for resize/reserve/constructor arguments near '
-                  '2^64 (a request that cannot be allocated) is outside the model. '
-                  'Trusted: Coq kernel, BufferSpec.v as the reading of the property text, extraction + OCaml driver, harness, '
+                  'past every branch condition x every source range inside the window x 2^64-1 and three more unsatisfiable sizes.  '
+                  'Validated by correspondence only (not modelled): the order of delete[] relative to the copy out of the old '
+                  'storage and double free (AddressSanitizer; this is what exhibited fixes/C08/12), operator!= / isEmpty consistency, '
+                  'the Server.cpp send backlog (uses append/removeFront only; not driven).  A request new[] cannot satisfy ends the '
+                  'harness process (sanitizer report "out of memory", line `! oom`); the model and the reference predict that line '
+                  'for every capacity >= 2^63-1, and the generators use only sizes <= 400 or >= 2^63-1, so the outcome of requests '
+                  'between 2 GB and PTRDIFF_MAX (which the model says succeed) is never exercised.  Modelled as input: the bytes handed '
+                  'to attach are fresh foreign memory that nobody else changes and that does not alias a Buffer allocation; a data '
+                  'pointer handed to assign/append/prepend points either outside every Buffer or at bytes inside the window of the '
+                  'receiving Buffer (a pointer into its head-room or slack, or into another Buffer that shares nothing, is the first '
+                  'case).  Trusted: Coq kernel, BufferSpec.v as the reading of the property text, extraction + OCaml driver, harness, '
                   'g++ sanitizers.')
     rule = ''
     rule_static = ('cases = histories over 1..4 Buffer variables; four random streams steered by a shadow of the window state '
                    '(owning: head-room/slack branches; attach: attach mixed with owning ops; alias: v=v, v.append(v), v.prepend(v), '
-                   'swap(v,v); long: 60..120 ops, sizes to 200) + exhaustive stream "branches" (every owning state with capacity <= 5, '
-                   'size, head-room and every attached state of length <= 4 with front offset x every operation with arguments on '
-                   'and one past each branch condition, followed by append+prepend) + exhaustive 2-op scope over a 36-op alphabet; removeFront/removeBack arguments include 2^64-1, 2^64-size, 2^63; '
+                   'swap(v,v), source pointers inside v; long: 60..120 ops, sizes to 200; resize/reserve/constructor sizes are <= 400 '
+                   'or one of 2^64-1, 2^64-2, 2^64-1-size, 2^64-1-capacity, 2^63, 2^63-1, which end the history) + exhaustive stream '
+                   '"branches" (every owning state with capacity <= 5, size, head-room and every attached state of length <= 4 with '
+                   'front offset x every operation with arguments on and one past each branch condition, every (offset, length) inside '
+                   'the window as source of append/assign/prepend, resize/reserve with 2^64-1 and one more unsatisfiable size, followed '
+                   'by append+prepend) + exhaustive 2-op scope over a 47-op alphabet; removeFront/removeBack arguments include 2^64-1, '
+                   '2^64-size, 2^63; '
                    'a case is non-trivial when the implementation\'s own dump shows at least two of {head-room > 0, capacity slack, '
                    'attached window, emptied non-owning window} and it has >= 3 mutating ops; distinct = distinct op text. ')
-    assumptions = ['resize/reserve/constructor size arguments and data lengths stay far below 2^63 (capacity+1 does not wrap; sizes are nat in the model); removeFront/removeBack take every usize',
+    assumptions = ['operator new[] satisfies every request of at most PTRDIFF_MAX bytes (in the model) and fails every larger one; in the run, requests are <= 401 bytes or >= 2^63',
                    'memory handed to attach() is not modified or freed by anyone else while attached and does not alias a Buffer allocation',
-                   'raw data pointers passed to assign/append/prepend do not point into the receiving Buffer',
-                   'operator new[] succeeds (no allocation failure modelled)']
+                   'a raw data pointer passed to assign/append/prepend points outside every Buffer or at bytes inside the window of the receiving Buffer',
+                   'byte ranges handed in (data, attach) are at most PTRDIFF_MAX-1 bytes long']
 
     # the case splits of the proofs: every one must be aimed at in every run (see extra_checks)
     REQUIRED = ['prepend/headroom/O', 'prepend/shift/O', 'prepend/realloc/O', 'prepend/realloc/A', 'prepend/realloc/D',
